@@ -132,6 +132,7 @@ Definition op_wf (L : layout) (o : op) : Prop :=
   | SetM i _ => i < sl_n L
   | Hw v => length v = sl_n L
   | Fault _ _ => True
+  | Coerce _ => True
   end.
 
 (* two finding classes: assignment to the side from which no callback propagates *)
@@ -162,16 +163,25 @@ Proof.
   - unfold Inv. auto.
 Qed.
 
+Lemma coerce_from_length : forall l v k, length (coerce_from k l v) = length v.
+Proof. induction v; simpl; intros; auto. Qed.
+
+Lemma coerce_length : forall l v, length (coerce l v) = length v.
+Proof. intros. apply coerce_from_length. Qed.
+
+(* whatever the hardware makes of the requested members: struct and members get the SAME (returned) values *)
 Lemma rw_write_struct_inv : forall L v s, length v = sl_n L -> Inv L s -> Inv L (fst (rw_write_struct L v s)).
 Proof.
   intros L v s Hv HI. pose proof HI as (E & Hm & Hh). unfold rw_write_struct.
-  destruct (sl_sw L && nth 0 (fwr s) false); [exact HI|]. simpl.
-  set (s1 := if sl_sw L then set_hw s v else s).
-  assert (H0 : cmem s1 = cmem s /\ length (hw s1) = sl_n L).
-  { unfold s1; destruct (sl_sw L); simpl; auto. }
-  destruct H0 as (E1 & E2).
-  destruct (ann_struct_cb_spec (sl_n L) v s1 Hv) as (H1 & H2 & H3). { now rewrite E1. }
-  unfold Inv. rewrite H1, H2, H3. auto.
+  destruct (sl_sw L).
+  - destruct (nth 0 (fwr s) false); [exact HI|].
+    assert (Hc : length (coerce (csc s) v) = sl_n L) by now rewrite coerce_length.
+    destruct (forallb (in_range L) (coerce (csc s) v)); simpl.
+    + destruct (ann_struct_cb_spec (sl_n L) (coerce (csc s) v) (set_hw s (coerce (csc s) v)) Hc) as (H1 & H2 & H3); [exact Hm|].
+      unfold Inv. rewrite H1, H2, H3. simpl. auto.
+    + unfold Inv; simpl. auto.
+  - simpl. destruct (ann_struct_cb_spec (sl_n L) v s Hv Hm) as (H1 & H2 & H3).
+    unfold Inv. rewrite H1, H2, H3. auto.
 Qed.
 
 Lemma ann_mem_quiet_same : forall L i s, Inv L s -> Inv L (ann_mem_quiet i (nth i (cmem s) 0%Z) s).
@@ -261,6 +271,75 @@ Proof.
   - rewrite Hs. now apply ann_mem_cb_inv.
   - destruct HI as (E & Hm & Hh). unfold Inv; simpl. auto.
   - exact HI.
+  - exact HI.
+Qed.
+
+(* --- write of a member in the combined layout: generated wfunc = write_<struct>(copy with the member replaced), then
+   the value READ BACK through read_<member>() is returned and announced --- *)
+Lemma rw_read_struct_hw : forall L s s' d, sl_sr L = true -> length (hw s) = sl_n L -> length (cmem s) = sl_n L ->
+  rw_read_struct L s = (s', Some d) -> cmem s' = hw s' /\ d = hw s'.
+Proof.
+  intros L s s' d Hsr Hh Hm H. unfold rw_read_struct in H. rewrite Hsr in H.
+  destruct (nth 0 (frd s) false); [discriminate|]. injection H as <- <-.
+  destruct (ann_struct_cb_spec (sl_n L) (hw s) s Hh Hm) as (H1 & H2 & H3). rewrite H2, H3. auto.
+Qed.
+
+Lemma rw_write_mem_spec : forall L i v s, Inv L s ->
+  let '(s', r) := rw_write_mem L i v s in
+  Inv L s' /\
+  match r with
+  | ROk x => x = [nth i (cmem s') 0%Z] /\ (sl_sr L = true -> cmem s' = hw s')
+  | RErr c => c = 1 \/ c = 3
+  end.
+Proof.
+  intros L i v s HI. pose proof (rw_write_mem_inv L i v s HI) as Hinv. unfold rw_write_mem in *.
+  pose proof (rw_write_struct_inv L (set_nth i v (cst s)) s) as H.
+  destruct (rw_write_struct L (set_nth i v (cst s)) s) as [s1 [r1|]]; simpl in H.
+  - assert (H1 : Inv L s1). { apply H; auto. destruct HI as (E & Hm & _). now rewrite set_nth_length, E. }
+    unfold rw_read_mem in *.
+    pose proof (rw_read_struct_inv L s1 H1) as H2.
+    pose proof (rw_read_struct_hw L s1) as H3.
+    destruct (rw_read_struct L s1) as [s2 [d|]].
+    + destruct H2 as (H2 & ->). split; [exact Hinv|].
+      assert (Hc : cmem (ann_mem_quiet i (nth i (cmem s2) 0%Z) (ann_mem_quiet i (nth i (cmem s2) 0%Z) s2)) = cmem s2).
+      { unfold ann_mem_quiet; simpl. now rewrite !set_nth_same. }
+      rewrite Hc. split; [reflexivity|].
+      intros Hsr. destruct H1 as (_ & Hm1 & Hh1). destruct (H3 s2 (cmem s2) Hsr Hh1 Hm1 eq_refl) as (H4 & _).
+      exact H4.
+    + split; [exact Hinv|]. auto.
+  - split; [exact Hinv|]. auto.
+Qed.
+
+Lemma nth_set_nth_eq : forall (l : list Z) i v d, i < length l -> nth i (set_nth i v l) d = v.
+Proof. induction l; destruct i; simpl; intros; try lia; auto. apply IHl. lia. Qed.
+
+Lemma nth_coerce_from : forall l v k i, i < length v -> nth i (coerce_from k l v) 0%Z = clookup (k + i) (nth i v 0%Z) l.
+Proof.
+  induction v as [|x v IH]; simpl; intros k i Hi; [lia|]. destruct i.
+  - now rewrite Nat.add_0_r.
+  - rewrite IH by lia. f_equal. lia.
+Qed.
+
+(* with a user written write_<struct>: the reply of a successful member write is what the hardware made of the request *)
+Lemma rw_write_mem_reply : forall L i v s s' x, sl_sw L = true -> i < sl_n L -> Inv L s ->
+  rw_write_mem L i v s = (s', ROk x) -> x = [clookup i v (csc s)].
+Proof.
+  intros L i v s s' x Hsw Hi (E & Hm & Hh) H. unfold rw_write_mem, rw_write_struct in H. rewrite Hsw in H.
+  destruct (nth 0 (fwr s) false); [discriminate|].
+  assert (Hn : nth i (coerce (csc s) (set_nth i v (cst s))) 0%Z = clookup i v (csc s)).
+  { unfold coerce. rewrite nth_coerce_from by (rewrite set_nth_length, E, Hm; exact Hi).
+    rewrite nth_set_nth_eq by (rewrite E, Hm; exact Hi). reflexivity. }
+  assert (Hc : length (coerce (csc s) (set_nth i v (cst s))) = sl_n L) by now rewrite coerce_length, set_nth_length, E.
+  set (c := coerce (csc s) (set_nth i v (cst s))) in *.
+  destruct (forallb (in_range L) c); [|discriminate].
+  destruct (ann_struct_cb_spec (sl_n L) c (set_hw s c) Hc Hm) as (H1 & H2 & H3).
+  change (hw (set_hw s c)) with c in H3.
+  unfold rw_read_mem, rw_read_struct in H. destruct (sl_sr L).
+  - destruct (nth 0 (frd (ann_struct_cb (sl_n L) c (set_hw s c))) false); [discriminate|].
+    assert (Hx : [nth i (hw (ann_struct_cb (sl_n L) c (set_hw s c))) 0%Z] = x) by congruence.
+    now rewrite <- Hx, H3, Hn.
+  - assert (Hx : [nth i (cst (ann_struct_cb (sl_n L) c (set_hw s c))) 0%Z] = x) by congruence.
+    now rewrite <- Hx, H1, Hn.
 Qed.
 
 (* a history is admissible when every operation is well formed, is not an assignment to the non-propagating side, and no
@@ -284,6 +363,38 @@ Lemma struct_agree : forall L ops, run_ok L (init L) ops ->
 Proof.
   intros L ops Hr. destruct (fold_inv L ops (init L) Hr (init_inv L)) as (E & Hm & Hh). simpl. unfold run.
   rewrite E. auto.
+Qed.
+
+(* the two statements of C18_struct_member_write_consistent *)
+Lemma member_write_step : forall L s i v, sl_rw L = true -> i < sl_n L -> Inv L s ->
+  let '(s', r) := step L s (WriteM i v) in
+  cst s' = cmem s' /\ length (cmem s') = sl_n L /\
+  match r with
+  | ROk x => x = [nth i (cmem s') 0%Z] /\ x = [nth i (cst s') 0%Z] /\
+             (sl_sr L = true -> cmem s' = hw s') /\
+             (sl_sw L = true -> x = [clookup i v (csc s)])
+  | RErr c => c = 1 \/ c = 3
+  end.
+Proof.
+  intros L s i v Hrw Hi HI. simpl. destruct (in_range L v).
+  - rewrite Hrw. pose proof (rw_write_mem_spec L i v s HI) as H.
+    pose proof (rw_write_mem_reply L i v s) as Hr.
+    destruct (rw_write_mem L i v s) as (s', r). destruct H as ((E & Hm & _) & H). split; [exact E|]. split; [exact Hm|].
+    destruct r as [x|c]; [|exact H]. destruct H as (H1 & H2). split; [exact H1|]. split; [now rewrite E|].
+    split; [exact H2|]. intros Hsw. exact (Hr s' x Hsw Hi HI eq_refl).
+  - destruct HI as (E & Hm & _). auto.
+Qed.
+
+Lemma member_write_after_history : forall L ops i v, run_ok L (init L) ops -> sl_rw L = true -> i < sl_n L ->
+  let s := run L (ops ++ [WriteM i v]) in
+  length (cst s) = sl_n L /\ length (cmem s) = sl_n L /\ forall j, j < sl_n L -> nth j (cst s) 0%Z = nth j (cmem s) 0%Z.
+Proof.
+  intros L ops i v Hr Hrw Hi. unfold run. rewrite fold_left_app.
+  set (s0 := fold_left (fun s o => fst (step L s o)) ops (init L)).
+  change (fold_left (fun s o => fst (step L s o)) [WriteM i v] s0) with (fst (step L s0 (WriteM i v))).
+  pose proof (fold_inv L ops (init L) Hr (init_inv L)) as HI. fold s0 in HI.
+  pose proof (member_write_step L s0 i v Hrw Hi HI) as H.
+  destruct (step L s0 (WriteM i v)) as (s', r). destruct H as (E & Hm & _). simpl fst. rewrite E. auto.
 Qed.
 
 (* without faults in the script nothing is ever aborted: the guard reduces to the two assignment classes *)
